@@ -373,7 +373,7 @@ class Text(JupyterMixin):
         """
         length = len(self)
         if start < 0:
-            start = length + start
+            start = max(0, length + start)
         if end is None:
             end = length
         if end < 0:
